@@ -64,8 +64,32 @@ func ForAllMapOrders(maxExec int64, body func(orderTrace []int)) (int64, bool) {
 		SetMapOrderHook(func(n int) []int {
 			return orderFor(n, r.Choose(orderChoices(n), "map-order", false))
 		})
-		defer SetMapOrderHook(nil)
+		defer SetMapOrderHook(pinnedHook())
 		body(nil)
 	}, func(r *Run) {})
 	return st.Executions, st.Capped
+}
+
+// mapOrderPinned: outside ForAllMapOrders every map iteration of the library runs in one fixed order (the sorted
+// keys) instead of Go's randomised one. Randomised order is nondeterminism the harness does not own: a clause that
+// is sensitive to it would fire in some executions and not in others, and a violation would not replay.
+var mapOrderPinned bool
+
+func pinnedHook() func(n int) []int {
+	if !mapOrderPinned {
+		return nil
+	}
+	return func(n int) []int {
+		p := make([]int, n)
+		for i := range p {
+			p[i] = i
+		}
+		return p
+	}
+}
+
+// PinMapOrder switches the fixed order on (instrumented build; a no-op otherwise).
+func PinMapOrder() {
+	mapOrderPinned = true
+	SetMapOrderHook(pinnedHook())
 }
